@@ -7,11 +7,14 @@ SPEC = {
     "extra": [e2e.startup_cycles],
     "rule": "exhaustive: every key of the built-in table, every IANA id 0..500 and 100 random keys; for each the real "
             "ipfix.InfoModel entry before and after the real LoadExtElements on the shipped scripts/ipfix.elements; "
-            "non-trivial = the key exists; distinct = distinct key",
+            "non-trivial = the key exists; distinct = distinct key. e2e-startup: 32 (quick) / 320 (thorough) start-ups of the race-"
+            "detector build of the binary with the shipped ipfix.elements installed (three in four) or absent while NetFlow v9 and "
+            "IPFIX exporters are already sending: it must come up, keep decoding and log no race / crash report (judged before the "
+            "stop; the stop path is C15's)",
     "assumptions": ["factgen's go/ast reading of the InfoModel literal / FieldTypes map / iota block and its YAML-subset parser "
                     "(cross-checked: the driver prints the generated table and the harness the real map, entry by entry)",
                     "gopkg.in/yaml.v2 as used by LoadExtElements (library)"],
-    "exhaustive": True,
+    "exhaustive": False,
 }
 META = {
     "text": "Decided entirely on regenerated facts: factgen extracts the 402-entry InfoModel literal, the FieldTypes map and the "
